@@ -143,21 +143,23 @@ RidgeSets == << << << <<100, -400>>, <<300, 300>> >>, << <<600, 450>>, <<700, 14
                 << << <<100, -400>>, <<300, 300>>, <<200, 1400>> >> >> >>
 RidgeVels(r) == << <<0, <<FlattenSeq([i \in 1..Len(RidgeSets[r]) |-> [j \in 1..Len(RidgeSets[r][i]) |-> Dec(2 + ((i + j) % 3), -2)]])>>>> >>
 RidgeDoc(f, r, model) ==
-  World(Cartesian,
+  World(IF f.sph THEN Spherical("begin segment") ELSE Cartesian,
         <<Area("oceanic plate", "o", RectF(f, -500, -500, 1300, 1500), 0, 120 * Km,
                <<   ("model" :> model) @@ ("min depth" :> 0) @@ ("max depth" :> 120 * Km) @@ ("top temperature" :> 273) @@ ("bottom temperature" :> 1600)
                  @@ ("spreading velocity" :> RidgeVels(r))
                  @@ ("ridge coordinates" :> [i \in 1..Len(RidgeSets[r]) |-> [j \in 1..Len(RidgeSets[r][i]) |-> XYf(f, RidgeSets[r][i][j][1], RidgeSets[r][i][j][2])]]) >>,
                <<CUniform(<<1>>, "replace")>>, <<>>, <<>>)>>)
 RidgeRows(f) == LET ps == SetToSeq({-450 + 67 * i : i \in 0..25} \X {-450 + 71 * j : j \in 0..26} \X {20, 70}) IN
-                [k \in 1..Len(ps) |-> LET p == XYf(Identity, ps[k][1], ps[k][2])  q == XYf(f, ps[k][1], ps[k][2]) IN
-                                       <<p[1], p[2], H - ps[k][3] * Km, ps[k][3] * Km, q[1], q[2], H - ps[k][3] * Km>>]
+                [k \in 1..Len(ps) |-> LET p == XYf(Base(f.sph), ps[k][1], ps[k][2])  q == XYf(f, ps[k][1], ps[k][2]) IN
+                                       IF f.sph THEN <<R - ps[k][3] * Km, p[1], p[2], ps[k][3] * Km, R - ps[k][3] * Km, q[1], q[2]>>
+                                       ELSE <<p[1], p[2], H - ps[k][3] * Km, ps[k][3] * Km, q[1], q[2], H - ps[k][3] * Km>>]
 RidgeBehaviour(r, f, model) ==
   [id |-> <<"motion-ridge", r, f, model>>, labels |-> <<"motion", "ridge-shapes", model>>,
-   steps |-> << [op |-> "create", h |-> 1, wb |-> RidgeDoc(Identity, r, model)], [op |-> "create", h |-> 2, wb |-> RidgeDoc(f, r, model)],
-                [op |-> "qtable", h |-> 1, h2 |-> 2, dim |-> 3, props |-> <<PT, PC(1), PTag>>, pos2 |-> <<4, 5, 6>>,
+   steps |-> << [op |-> "create", h |-> 1, wb |-> RidgeDoc(Base(f.sph), r, model)], [op |-> "create", h |-> 2, wb |-> RidgeDoc(f, r, model)],
+                [op |-> "qtable", h |-> 1, h2 |-> 2, dim |-> 3, sph |-> f.sph, props |-> <<PT, PC(1), PTag>>, pos2 |-> <<4, 5, 6>>,
                  twinrel |-> Dec(1, -6), twinabs |-> Dec(1, -3), jitter |-> Dec(1, -7), rows |-> RidgeRows(f)] >>]
-EmitRidges == \A r \in 1..Len(RidgeSets), f \in TrenchFrames, m \in {"half space model", "plate model"} :
+RidgeFrames == TrenchFrames \cup {[sph |-> TRUE, dlon |-> 172], [sph |-> TRUE, dlon |-> -184]}       \* on the sphere the ridge is moved across the +-180 meridian
+EmitRidges == \A r \in 1..Len(RidgeSets), f \in RidgeFrames, m \in {"half space model", "plate model"} :
                  PrintT(<<"B", ToJson(RidgeBehaviour(r, f, m))>>)
 
 (* a trench is emitted by its own Finish step, so that a simulation emits the polylines it walked and not every
